@@ -61,7 +61,10 @@ func (o vfOp) String() string {
 	return "Resume"
 }
 
-type vfSpan struct{ call, ret int64 }
+type vfSpan struct {
+	call, ret int64
+	self      bool // issued from inside a handler of this mailbox, i.e. by the consumer goroutine itself
+}
 
 type vfHandled struct {
 	msg        vfMsg
@@ -93,23 +96,25 @@ func (m *vfMon) enqueue(msg vfMsg) {
 	c := m.clock.Add(1)
 	m.mu.Lock()
 	m.enqMsg[msg.ID] = msg
-	m.enq[msg.ID] = vfSpan{c, 1 << 62}
+	m.enq[msg.ID] = vfSpan{call: c, ret: 1 << 62}
 	m.mu.Unlock()
 	verifrt.Progress()
 	m.mb.Enqueue(NewEnvelop(msg.Sys, nil, nil, msg))
 	r := m.clock.Add(1)
 	m.mu.Lock()
-	m.enq[msg.ID] = vfSpan{c, r}
+	m.enq[msg.ID] = vfSpan{call: c, ret: r}
 	m.mu.Unlock()
 }
 
-func (m *vfMon) pause() {
+func (m *vfMon) pause() { m.pauseFrom(false) }
+
+func (m *vfMon) pauseFrom(self bool) {
 	c := m.clock.Add(1)
 	verifrt.Progress()
 	m.mb.Pause()
 	r := m.clock.Add(1)
 	m.mu.Lock()
-	m.pauses = append(m.pauses, vfSpan{c, r})
+	m.pauses = append(m.pauses, vfSpan{c, r, self})
 	m.mu.Unlock()
 }
 
@@ -117,7 +122,7 @@ func (m *vfMon) resume() {
 	c := m.clock.Add(1)
 	m.mu.Lock()
 	i := len(m.resumes)
-	m.resumes = append(m.resumes, vfSpan{c, 1 << 62})
+	m.resumes = append(m.resumes, vfSpan{call: c, ret: 1 << 62})
 	m.mu.Unlock()
 	verifrt.Progress()
 	m.mb.Resume()
@@ -146,11 +151,11 @@ func (m *vfMon) HandleEnvelop(e vivid.Envelop) {
 	case vfActSelfSystem:
 		m.enqueue(vfMsg{ID: int(m.nextID.Add(1)), Sender: -1, Sys: true})
 	case vfActSelfPause:
-		m.pause()
+		m.pauseFrom(true)
 	case vfActSelfResume:
 		m.resume()
 	case vfActSelfPauseThenUser:
-		m.pause()
+		m.pauseFrom(true)
 		m.enqueue(vfMsg{ID: int(m.nextID.Add(1)), Sender: -1})
 	}
 	verifrt.P("harness.handler#out")
@@ -282,12 +287,18 @@ func (m *vfMon) analyse(final bool) (viol [][2]string) {
 		}
 		lo := sort.Search(len(userStarts), func(i int) bool { return userStarts[i] > tp })
 		hi := sort.Search(len(userStarts), func(i int) bool { return userStarts[i] >= tr })
-		if hi-lo > 1 {
+		// one user handler may already have been admitted by the consumer when an *external* Pause returns;
+		// a Pause issued by the consumer itself (from inside a handler) leaves no such slack
+		allowed := 1
+		if p.self {
+			allowed = 0
+		}
+		if hi-lo > allowed {
 			var ids []int
 			for k := lo; k < hi && k < lo+6; k++ {
 				ids = append(ids, userIDAt[userStarts[k]])
 			}
-			add("user-handled-while-paused", "%d user handlers (ids %v…) started between a Pause return (t=%d) and the next Resume call (t=%d)", hi-lo, ids, tp, tr)
+			add("user-handled-while-paused", "%d user handler(s) (ids %v…) started between a Pause return (t=%d, issued from inside a handler: %v) and the next Resume call (t=%d); allowed: %d", hi-lo, ids, tp, p.self, tr, allowed)
 			break
 		}
 	}
